@@ -9,7 +9,7 @@ first = sys.argv[2] if len(sys.argv) > 2 else None
 
 
 def load(src, name):
-    for n in (name, name[3:] if name.startswith(('r2-', 'r3-', 'r4-', 'r5-', 'r6-', 'r7-', 'r8-', 'r9-')) else name):
+    for n in (name, name[3:] if name.startswith(('r2-', 'r3-', 'r4-', 'r5-', 'r6-', 'r7-', 'r8-', 'r9-', 'r10')) else name):
         p = os.path.join(src, n, 'eval.json')
         if os.path.exists(p):
             return json.load(open(p))
@@ -62,7 +62,7 @@ out = ['# Seeded property-breaking changes', '',
        'Each change compiles and keeps the 117 unit tests + doctest green; each `demo.rs` exits 0 on the unchanged crate and non-zero with the patch.',
        'I re-confirmed all of that in a scratch worktree (`tools/seeded_eval.py`), then applied each patch to /repo, ran the property\'s check and undid the patch.',
        '`C01-1 … C20-6` are round 1 (used while building the machinery); `r2-*` are round 2 and `r3-*` round 3 (written after it existed; "first run" is the result before the repairs that run prompted).', '']
-for title, sel in (('Round 1', lambda n: not n.startswith(('r2-', 'r3-', 'r4-', 'r5-', 'r6-', 'r7-', 'r8-', 'r9-'))), ('Round 2', lambda n: n.startswith('r2-')), ('Round 3', lambda n: n.startswith('r3-')), ('Round 4', lambda n: n.startswith('r4-')), ('Round 5', lambda n: n.startswith('r5-')), ('Round 6', lambda n: n.startswith('r6-')), ('Round 7', lambda n: n.startswith('r7-')), ('Round 8', lambda n: n.startswith('r8-')), ('Round 9', lambda n: n.startswith('r9-'))):
+for title, sel in (('Round 1', lambda n: not n.startswith(('r2-', 'r3-', 'r4-', 'r5-', 'r6-', 'r7-', 'r8-', 'r9-', 'r10'))), ('Round 2', lambda n: n.startswith('r2-')), ('Round 3', lambda n: n.startswith('r3-')), ('Round 4', lambda n: n.startswith('r4-')), ('Round 5', lambda n: n.startswith('r5-')), ('Round 6', lambda n: n.startswith('r6-')), ('Round 7', lambda n: n.startswith('r7-')), ('Round 8', lambda n: n.startswith('r8-')), ('Round 9', lambda n: n.startswith('r9-')), ('Round 10', lambda n: n.startswith('r10-'))):
     rs = [r for r in rows if sel(r[0])]
     if not rs:
         continue
